@@ -36,7 +36,7 @@ type Sink struct {
 	// through log/slog, whose handler holds its own (real) mutex during Write:
 	// parking there would block other threads outside the scheduler.
 	NoYield bool
-	mu     sync.Mutex // only for free-running (uninstrumented) conformance runs
+	mu      sync.Mutex // only for free-running (uninstrumented) conformance runs
 }
 
 func (s *Sink) Write(p []byte) (int, error) {
@@ -128,6 +128,10 @@ type ChunkReader struct {
 	// FinalErr, when set, ends the input instead of io.EOF (a device that is
 	// unplugged, a connection that is reset).
 	FinalErr error
+	// PauseAt[pos] = n: when the read position is pos the source first reports
+	// io.EOF n times (a file that is still being written, a quiet line) and
+	// then carries on.
+	PauseAt map[int]int
 }
 
 func (r *ChunkReader) end() error {
@@ -141,6 +145,10 @@ func (r *ChunkReader) Read(p []byte) (int, error) {
 	r.Reads++
 	if r.Reset {
 		mcrt.ResetLocal(uint64(r.Pos) + 1)
+	}
+	if n := r.PauseAt[r.Pos]; n > 0 {
+		r.PauseAt[r.Pos] = n - 1
+		return 0, io.EOF
 	}
 	if r.Pos >= len(r.Data) {
 		return 0, r.end()
